@@ -84,4 +84,14 @@ var props = map[string]propDef{
 		Thorough:       budget{Runs: 30000, Chunk: 100, Wall: 40 * time.Minute, PerChunkGrace: 5 * time.Minute},
 		MinimiseBudget: 60 * time.Second,
 	},
+	"C06": {
+		Binary: "dsim-store", Harness: "C06", Level: "exploration",
+		Rule: "each run = one seeded history (puts incl. duplicates, empty chunks, compressible/incompressible payloads and genuine 8-byte-prefix collision pairs; commits; conjoin; GC into one table file or one archive) on a file-manifest store with a tiny memtable, so the real writers (memtable persist, conjoin, GC copier, archive stream writer) run many times. Half of the runs inject ENOSPC / EIO / short write / fsync error / rename error / create error into operations on table and archive files (temp and final names), one in 6-40 eligible operations. After every operation every file under a final table or archive name is opened on its own and must read back completely (every chunk hashes to its address, reported count = chunks found); after every non-put operation an independent instance must read every committed chunk byte for byte and report adjacent absent addresses absent; in the fault-free configuration any error is a violation, in the fault configuration an operation may fail (the store is then restarted) but may never leave a short or damaged file under a final name. One evaluation = one file or one committed-state verification. Non-trivial = at least one fault fired, or a conjoin/GC happened; distinct by operation/outcome signature.",
+		Assumptions: []string{"claimed for the I/O surface: the chunk multiset itself is input-quantified and rides along as workload", "archives with per-group dictionaries cannot be produced by this tree's GC (MaxArchiveLevel = SimpleArchive) and are not exercised", "faults are injected only into table/archive files; manifest faults are C05's subject"},
+		Real:        storeReal, Stub: storeStub, Persistence: "not used (clean restarts after a failed operation)",
+		ExpectProbes:   []string{"commit_ok", "conjoin_ok", "gc_ok", "gc-archive_ok", "write-enospc", "short-write", "fsync-eio", "rename-eio", "op_failed_after_injected_fault"},
+		Quick:          budget{Runs: 400, Chunk: 25, Wall: 150 * time.Second, PerChunkGrace: 120 * time.Second},
+		Thorough:       budget{Runs: 20000, Chunk: 100, Wall: 40 * time.Minute, PerChunkGrace: 5 * time.Minute},
+		MinimiseBudget: 60 * time.Second,
+	},
 }
